@@ -8,7 +8,8 @@ from vk.build import pack_bp
 ID = 'C15'
 RULE = ('Part bp: mv arrays of ndim 1..4, values 0..7, pattern counts 1..40 -> mv_to_bp -> bp_to_mv round trip, padding lanes 0, shape '
         '(..., S, 3, ceil(P/8)), agreement with an own packer. Part strings: k strings / value lists over the alphabet 0 1 X - R F P N and '
-        'every documented alias -> mvarray/bparray (shape (S, k): patterns last), mv_str renders the documented characters and parses back. '
+        'every documented alias -> mvarray/bparray (shape (S, k): patterns last), mv_str renders the documented characters and parses back; '
+        'the same arguments parse to the same values again after the first result was edited in place. '
         'Part bits: integer arrays of every dtype u/i 8..64, ndim 1..3 -> unpackbits/packbits inverse, bit i = (x >> i) & 1, padding/truncation '
         'as documented, popcount. non-trivial: pattern count not a multiple of 8, or ndim >= 3, or dtype wider than 8 bits, or an alias '
         'character used; distinct by SHA-1 of the case.')
@@ -23,18 +24,25 @@ ALIASES = {0: ['0', 'L', 'l', 0, False], 3: ['1', 'H', 'h', 1, True], 2: ['-', '
 @st.composite
 def bp_cases(draw, tier):
     ndim = draw(st.integers(1, 4))
-    pats = draw(st.one_of(st.integers(1, 40), st.sampled_from([1, 7, 8, 9, 15, 16, 17, 24, 33])))
+    pats = draw(st.one_of(st.integers(1, 40), st.sampled_from([1, 7, 8, 9, 15, 16, 17, 24, 33, 255, 256, 257])))
     lead = draw(st.lists(st.integers(1, 3), min_size=max(0, ndim - 2), max_size=max(0, ndim - 2)))
     sigs = draw(st.integers(1, 6))
     shape = ([sigs] if ndim == 1 else lead + [sigs, pats])
     n = int(np.prod(shape))
-    vals = draw(st.lists(st.integers(0, 7), min_size=n, max_size=n))
-    return dict(shape=shape, vals=vals)
+    vals = draw(st.lists(st.integers(0, 7), min_size=n, max_size=n)) if n <= 2000 else \
+        [(x * 5 + i) % 8 for i, x in enumerate(draw(st.lists(st.integers(0, 7), min_size=64, max_size=64)) * (n // 64 + 1))][:n]
+    return dict(shape=shape, vals=vals, layout=draw(st.sampled_from(['C', 'C', 'F', 'strided'])))
 
 
 def prop_bp(case):
     from kyupy import logic
     a = np.array(case['vals'], dtype=np.uint8).reshape(case['shape'])
+    if case.get('layout') == 'F':
+        a = np.asfortranarray(a)
+    elif case.get('layout') == 'strided':          # a non-contiguous view of a larger array
+        big = np.zeros(tuple(2 * d for d in a.shape), dtype=np.uint8) + 7
+        big[tuple(slice(None, None, 2) for _ in a.shape)] = a
+        a = big[tuple(slice(None, None, 2) for _ in a.shape)]
     a0 = a.copy()
     bp = logic.mv_to_bp(a)
     a2 = a if a.ndim > 1 else a[:, np.newaxis]
@@ -55,7 +63,7 @@ def prop_bp(case):
         raise Violation('padding lanes are not 0')
     if not np.array_equal(a, a0):
         raise Violation('mv_to_bp modified its argument')
-    return Obs(P % 8 != 0 or a.ndim >= 3, [f'ndim{a.ndim}', 'P%8!=0' if P % 8 else 'P%8==0'])
+    return Obs(P % 8 != 0 or a.ndim >= 3, [f'ndim{a.ndim}', 'P%8!=0' if P % 8 else 'P%8==0', 'layout_' + case.get('layout', 'C')])
 
 
 @st.composite
@@ -114,7 +122,18 @@ def prop_str(case):
     back = logic.mvarray(*str(txt).split(case['delim'])) if k > 1 else logic.mvarray(str(txt))
     if not np.array_equal(back, mva):
         raise Violation('mvarray(mv_str(a)) != a')
-    return Obs(alias_used or k % 8 != 0, [f'k{k}', 'alias' if alias_used else 'plain'])
+    # parsing is a function of the strings: what a caller did to an earlier result (plain ndarrays, edited in place for X-fill etc.) does not matter
+    labels = [f'k{k}', 'alias' if alias_used else 'plain']
+    for name, fn, first in (('mvarray', logic.mvarray, mva), ('bparray', logic.bparray, bpa)):
+        if first.flags.writeable:
+            keep = first.copy()
+            first[...] = (first + 1 + case['sel'][0]) & 7 if name == 'mvarray' else ~first
+            again = fn(*vecs)
+            if not np.array_equal(again, keep):
+                raise Violation(f'{name}{tuple(vecs)!r} after an in-place edit of the array an earlier equal call returned: {again.tolist()}, '
+                                f'expected {keep.tolist()}')
+            labels.append('reparse_after_edit')
+    return Obs(alias_used or k % 8 != 0, labels)
 
 
 DTYPES = ['uint8', 'int8', 'uint16', 'int16', 'uint32', 'int32', 'uint64', 'int64']
@@ -157,7 +176,7 @@ def prop_bits(case):
     tb = 8 * tdt.itemsize
     w = case['width']
     rows = np.array(case['bits'], dtype=np.uint8).reshape(2, w)
-    pk = logic.packbits(rows, tdt)
+    pk = logic.packbits(rows.astype(bool) if w % 2 else rows, tdt)       # 0/1 integers or booleans
     if pk.shape != (2,) or pk.dtype != tdt:
         raise Violation(f'packbits shape/dtype {pk.shape} {pk.dtype}')
     for j in range(2):
